@@ -282,7 +282,9 @@ Proof.
     destruct (rfold _ _ s) as [s1|e p].
     + rewrite bind_Ok. destruct Hf as [(A & B & C) Hgone]. cbn.
       split; [exact A|]. split; [exact C|]. split; [rewrite B; reflexivity|].
-      unfold Cat. cbn. rewrite A, B. apply CatS_service_delete.
+      unfold Cat.
+      change (CatS (nodes s1) (delete (nd, svc) (services s1)) (cmap s1)).
+      rewrite A, B. apply CatS_service_delete.
       * intros cid Hc. exfalso.
         assert (Hin : cid ∈ checks_of_service nd svc s).
         { apply elem_of_checks_of_service. eapply lookup_weaken in Hc; [|exact C].
@@ -346,7 +348,7 @@ Proof.
     rewrite bind_Ok. destruct H2 as ((A2 & B2 & C2) & G2). cbn zeta.
     set (s3 := s2 <| nodes ::= delete nd |>).
     assert (HC3 : Cat s3).
-    { unfold Cat, s3. cbn. apply CatS_node_delete.
+    { unfold Cat, s3. change (CatS (delete nd (nodes s2)) (services s2) (cmap s2)). apply CatS_node_delete.
       - intros sid. rewrite B2. apply eq_None_not_Some. intros [v Hv].
         assert (Hin : sid ∈ services_of_node nd s).
         { apply elem_of_services_of_node. eapply lookup_weaken in Hv; [|exact B1]. eauto. }
@@ -363,3 +365,774 @@ Proof.
     + eapply Cat_shape; eassumption.
   - split; [|exact HC]. symmetry. apply delete_notin. exact En.
 Qed.
+
+Lemma node_by_id_Some id s nm n : node_by_id id s = Some (nm, n) -> nodes s !! nm = Some n /\ n_id n = id.
+Proof.
+  unfold node_by_id. destruct (filter _ _) as [|x l] eqn:E; [discriminate|]. intros H. injection H as ->.
+  assert (Hin : (nm, n) ∈ filter (fun kn : string * node => n_id kn.2 = id) (map_to_list (nodes s))) by (rewrite E; left).
+  apply elem_of_list_filter in Hin as [Hid Hin]. apply elem_of_map_to_list in Hin. split; assumption.
+Qed.
+
+Lemma node_by_id_None_inv id s : node_by_id id s = None -> forall nm n, nodes s !! nm = Some n -> n_id n <> id.
+Proof.
+  unfold node_by_id. destruct (filter _ _) as [|x l] eqn:E; [|discriminate]. intros _ nm n Hn Hid.
+  assert (Hin : (nm, n) ∈ filter (fun kn : string * node => n_id kn.2 = id) (map_to_list (nodes s))).
+  { apply elem_of_list_filter. split; [exact Hid|apply elem_of_map_to_list; exact Hn]. }
+  rewrite E in Hin. inversion Hin.
+Qed.
+
+Lemma ensure_node_Cat idx nd nid addr s : idx <> 0 -> Cat s -> outcome Cat id (ensure_node idx nd nid addr s).
+Proof.
+  intros Hidx HC. unfold ensure_node.
+  (* the final insertion, given that no OTHER node of s1 carries the nid *)
+  assert (Hfin : forall (n0 : option node) s1, Cat s1 ->
+            (forall x, n0 = Some x -> n_create x <> 0) ->
+            (forall nm x, nodes s1 !! nm = Some x -> nm <> nd -> nid <> "" -> n_id x <> nid) ->
+            outcome Cat id
+              (let n1 := match n0 with Some x => Some x | None => nodes s1 !! nd end in
+               match n1 with
+               | Some x => if bool_decide (n_id x = nid) && bool_decide (n_addr x = addr) && bool_decide (nodes s1 !! nd = Some x)
+                           then Ok s1 else Ok (s1 <| nodes ::= <[nd := Node nid addr (n_create x) idx]> |>)
+               | None => Ok (s1 <| nodes ::= <[nd := Node nid addr idx idx]> |>)
+               end)).
+  { intros n0 s1 HC1 Hn0 Hoth. cbn zeta.
+    assert (Hins : forall c, c <> 0 -> Cat (s1 <| nodes ::= <[nd := Node nid addr c idx]> |>)).
+    { intros c Hc. unfold Cat. change (CatS (<[nd := Node nid addr c idx]> (nodes s1)) (services s1) (cmap s1)).
+      apply CatS_node_insert; [exact Hc|exact Hoth|exact HC1]. }
+    destruct n0 as [x|].
+    - destruct (_ && _); cbn; [exact HC1|apply Hins, (Hn0 x eq_refl)].
+    - destruct (nodes s1 !! nd) as [x|] eqn:Ex.
+      + destruct (_ && _); cbn; [exact HC1|apply Hins]. destruct HC1 as (_ & B & _). eapply B; exact Ex.
+      + cbn. apply Hins, Hidx. }
+  destruct (bool_decide (nid = "")) eqn:Eid.
+  - apply bool_decide_eq_true in Eid. rewrite bind_Ok. apply (Hfin None s HC); [discriminate|].
+    intros nm x _ _ Hne. contradiction.
+  - apply bool_decide_eq_false in Eid.
+    destruct (node_by_id nid s) as [[oname on]|] eqn:Eby.
+    + apply node_by_id_Some in Eby as [Hon Hid].
+      assert (Hcr : n_create on <> 0) by (destruct HC as (_ & B & _); eapply B; exact Hon).
+      destruct (bool_decide (oname = nd)) eqn:Eon.
+      * apply bool_decide_eq_true in Eon. subst oname. rewrite bind_Ok.
+        apply (Hfin (Some on) s HC); [intros x [= <-]; exact Hcr|].
+        intros nm x Hx Hne _ Hxid. apply Hne. destruct HC as (A & _).
+        eapply (A nm nd x on); [exact Hx|exact Hon|congruence|congruence].
+      * destruct (similar_clash false nd nid s); [exact HC|].
+        pose proof (delete_node_Cat idx oname s HC) as Hd.
+        destruct (delete_node idx oname s) as [s'|e p]; [|exact Hd].
+        rewrite !bind_Ok. destruct Hd as [Hnodes HC'].
+        apply (Hfin (Some on) s' HC'); [intros x [= <-]; exact Hcr|].
+        intros nm x Hx Hne _ Hxid. rewrite Hnodes in Hx. apply lookup_delete_Some in Hx as [Hno Hx].
+        apply Hno. destruct HC as (A & _). symmetry.
+        eapply (A nm oname x on); [exact Hx|exact Hon|congruence|congruence].
+    + destruct (similar_clash true nd nid s); [exact HC|]. rewrite bind_Ok.
+      apply (Hfin None s HC); [discriminate|].
+      intros nm x Hx _ _. eapply node_by_id_None_inv; eassumption.
+Qed.
+
+Lemma ensure_service_Cat idx nd svc name port s : Cat s -> outcome Cat id (ensure_service idx nd svc name port s).
+Proof.
+  intros HC. unfold ensure_service. destruct (nodes s !! nd) as [n|] eqn:En; [|exact HC].
+  assert (Hins : forall x, Cat (s <| services ::= <[(nd, svc) := x]> |>)).
+  { intros x. unfold Cat. change (CatS (nodes s) (<[(nd, svc) := x]> (services s)) (cmap s)).
+    apply CatS_service_insert; [rewrite En; eauto|exact HC]. }
+  destruct (services s !! (nd, svc)) as [x|]; [destruct (_ && _)|]; cbn; [exact HC|apply Hins|apply Hins].
+Qed.
+
+Lemma check_spec_Cat nd cid hc s r : Cat s -> check_spec nd cid hc s r -> outcome Cat id r.
+Proof.
+  intros HC. destruct r as [s'|e p]; cbn.
+  - intros (A & B & C & D & E). unfold Cat. rewrite A, B, C. apply CatS_check_insert; assumption.
+  - intros H. eapply Cat_shape; eassumption.
+Qed.
+
+Lemma ensure_check_p_Cat pre idx nd cid hc s : Cat s -> outcome Cat id (ensure_check_p pre idx nd cid hc s).
+Proof. intros HC. eapply check_spec_Cat; [exact HC|apply ensure_check_p_shape]. Qed.
+
+Lemma delete_check_Cat idx nd cid s : Cat s -> outcome Cat id (delete_check idx nd cid s).
+Proof.
+  intros HC. pose proof (delete_check_shape idx nd cid s) as H.
+  destruct (delete_check idx nd cid s) as [p|e p]; cbn in *; destruct H as (A & B & C);
+    (eapply (less_checks_Cat s p); [split; [exact A|split; [exact B|rewrite C; apply delete_subseteq]]|exact HC]).
+Qed.
+
+Lemma delete_session_top_Cat idx sid s : Cat s -> outcome Cat id (delete_session_top idx sid s).
+Proof.
+  intros HC. pose proof (delete_session_top_shape idx sid s) as H.
+  destruct (delete_session_top idx sid s); cbn in *; eapply Cat_shape; eassumption.
+Qed.
+
+Lemma delete_service_Cat' idx nd svc s : Cat s -> outcome Cat id (delete_service idx nd svc s).
+Proof.
+  intros HC. pose proof (delete_service_Cat idx nd svc s HC) as H.
+  destruct (delete_service idx nd svc s); cbn; [exact (proj2 (proj2 (proj2 H)))|exact (proj2 H)].
+Qed.
+
+Lemma delete_node_Cat' idx nd s : Cat s -> outcome Cat id (delete_node idx nd s).
+Proof.
+  intros HC. pose proof (delete_node_Cat idx nd s HC) as H.
+  destruct (delete_node idx nd s); cbn; [exact (proj2 H)|exact H].
+Qed.
+
+(* a state that differs only outside the catalog rows *)
+Definition cat_same (s p : st) : Prop := nodes p = nodes s /\ services p = services s /\ checks p = checks s.
+Lemma cat_same_Cat s p : cat_same s p -> Cat s -> Cat p.
+Proof. intros (A & B & C). unfold Cat, cmap. rewrite A, B, C. tauto. Qed.
+
+Lemma session_create_Cat idx sid ss s : Cat s -> outcome Cat id (session_create idx sid ss s).
+Proof.
+  intros HC. unfold session_create. destruct (bool_decide (sid = "")); [exact HC|].
+  destruct (nodes s !! s_node ss); [|exact HC]. destruct (forallb _ _); [|exact HC].
+  apply rfold_outcome.
+  - intros cid t Ht. match goal with |- context [checks ?s1 !! ?k] => destruct (checks s1 !! k) end; [|exact Ht].
+    apply ensure_check_p_Cat. exact Ht.
+  - eapply cat_same_Cat; [|exact HC]. repeat split.
+Qed.
+
+(* ================================================================ Part 3: predicates that ignore the catalog rows *)
+Section catfree.
+Context (P : st -> Prop).
+Hypothesis cf_checks : forall s f, P s -> P (s <| checks ::= f |>).
+Hypothesis cf_nodes : forall s f, P s -> P (s <| nodes ::= f |>).
+Hypothesis cf_services : forall s f, P s -> P (s <| services ::= f |>).
+Hypothesis Hdrop : drop_ok P.
+
+Lemma cf_ensure_check_with del pre idx nd cid hc :
+  (forall i sid s, P s -> outcome P id (del i sid s)) ->
+  forall s, P s -> outcome P id (ensure_check_with del pre idx nd cid hc s).
+Proof.
+  intros Hdel s Hs. unfold ensure_check_with. destruct (nodes s !! nd); [|exact Hs].
+  unfold resolve_service.
+  assert (Htail : forall hc1, outcome P id (s1 ← invalidate_if_critical del idx nd cid hc1 s;
+                                           Ok (store_check pre idx nd cid hc1 (checks s !! (nd, cid)) s1))).
+  { intros hc1.
+    assert (Hi : outcome P id (invalidate_if_critical del idx nd cid hc1 s)).
+    { unfold invalidate_if_critical. destruct (bool_decide _); [|exact Hs].
+      apply rfold_outcome; [|exact Hs]. intros sid t Ht. apply Hdel, Ht. }
+    destruct (invalidate_if_critical del idx nd cid hc1 s) as [s1|e p]; cbn in *; [|exact Hi].
+    unfold store_check. destruct (match checks s !! (nd, cid) with Some x => negb (check_same x hc1) | None => true end);
+      [apply cf_checks|]; exact Hi. }
+  destruct (bool_decide (c_service hc = "")); [rewrite bind_Ok; apply Htail|].
+  destruct (services s !! (nd, c_service hc)); [rewrite bind_Ok; apply Htail|exact Hs].
+Qed.
+
+Lemma cf_delete_session fuel : forall idx sid s, P s -> outcome P id (delete_session fuel idx sid s).
+Proof.
+  induction fuel as [|fuel IH]; intros idx sid s Hs; cbn [delete_session]; [exact Hs|].
+  destruct (sessions s !! sid) as [ss|] eqn:Ess; [|exact Hs].
+  apply rfold_outcome; [|apply Hdrop; assumption].
+  intros cid t Ht. destruct (checks (drop_session idx sid ss s) !! (s_node ss, cid)); [|exact Ht].
+  apply cf_ensure_check_with; [|exact Ht]. intros i sd u Hu. apply IH, Hu.
+Qed.
+
+Lemma cf_delete_session_top idx sid s : P s -> outcome P id (delete_session_top idx sid s).
+Proof. apply cf_delete_session. Qed.
+
+Lemma cf_ensure_check_p pre idx nd cid hc s : P s -> outcome P id (ensure_check_p pre idx nd cid hc s).
+Proof.
+  intros Hs. unfold ensure_check_p. apply cf_ensure_check_with; [|exact Hs].
+  intros i sid u Hu. apply cf_delete_session, Hu.
+Qed.
+
+Lemma cf_delete_check idx nd cid s : P s -> outcome P id (delete_check idx nd cid s).
+Proof.
+  intros Hs. unfold delete_check. destruct (checks s !! (nd, cid)); [|exact Hs].
+  apply rfold_outcome; [|apply cf_checks, Hs]. intros sid t Ht. apply cf_delete_session_top, Ht.
+Qed.
+
+Lemma cf_delete_service idx nd svc s : P s -> outcome P id (delete_service idx nd svc s).
+Proof.
+  intros Hs. unfold delete_service. destruct (services s !! (nd, svc)); [|exact Hs].
+  pose proof (rfold_outcome P (fun s' cid => delete_check idx nd cid s') (checks_of_service nd svc s)
+                (fun cid t Ht => cf_delete_check idx nd cid t Ht) s Hs) as Hr.
+  destruct (rfold _ _ s) as [s1|e p]; cbn in *; [apply cf_services|]; exact Hr.
+Qed.
+
+Lemma cf_delete_node idx nd s : P s -> outcome P id (delete_node idx nd s).
+Proof.
+  intros Hs. unfold delete_node. destruct (nodes s !! nd); [|exact Hs].
+  pose proof (rfold_outcome P (fun s' svc => delete_service idx nd svc s') (services_of_node nd s)
+                (fun svc t Ht => cf_delete_service idx nd svc t Ht) s Hs) as Hr1.
+  destruct (rfold _ _ s) as [s1|e p]; cbn in Hr1; [rewrite bind_Ok|exact Hr1].
+  pose proof (rfold_outcome P (fun s' cid => delete_check idx nd cid s') (checks_of_node nd s1)
+                (fun cid t Ht => cf_delete_check idx nd cid t Ht) s1 Hr1) as Hr2.
+  destruct (rfold _ _ s1) as [s2|e p]; cbn in Hr2; [rewrite bind_Ok|exact Hr2].
+  cbn zeta. apply rfold_outcome; [|apply cf_nodes, Hr2]. intros sid t Ht. apply cf_delete_session_top, Ht.
+Qed.
+
+Lemma cf_ensure_node idx nd nid addr s : P s -> outcome P id (ensure_node idx nd nid addr s).
+Proof.
+  intros Hs. unfold ensure_node.
+  assert (Hfin : forall (n0 : option node) s1, P s1 ->
+            outcome P id
+              (let n1 := match n0 with Some x => Some x | None => nodes s1 !! nd end in
+               match n1 with
+               | Some x => if bool_decide (n_id x = nid) && bool_decide (n_addr x = addr) && bool_decide (nodes s1 !! nd = Some x)
+                           then Ok s1 else Ok (s1 <| nodes ::= <[nd := Node nid addr (n_create x) idx]> |>)
+               | None => Ok (s1 <| nodes ::= <[nd := Node nid addr idx idx]> |>)
+               end)).
+  { intros n0 s1 Hs1. cbn zeta. destruct n0 as [x|]; [|destruct (nodes s1 !! nd) as [x|]].
+    - destruct (_ && _); cbn; [exact Hs1|apply cf_nodes, Hs1].
+    - destruct (_ && _); cbn; [exact Hs1|apply cf_nodes, Hs1].
+    - cbn. apply cf_nodes, Hs1. }
+  destruct (bool_decide (nid = "")); [rewrite bind_Ok; apply (Hfin None), Hs|].
+  destruct (node_by_id nid s) as [[oname on]|].
+  - destruct (bool_decide (oname = nd)); [rewrite bind_Ok; apply (Hfin (Some on)), Hs|].
+    destruct (similar_clash false nd nid s); [exact Hs|].
+    pose proof (cf_delete_node idx oname s Hs) as Hd.
+    destruct (delete_node idx oname s) as [s'|e p]; cbn in Hd; [|exact Hd].
+    rewrite !bind_Ok. apply (Hfin (Some on)), Hd.
+  - destruct (similar_clash true nd nid s); [exact Hs|]. rewrite bind_Ok. apply (Hfin None), Hs.
+Qed.
+
+Lemma cf_ensure_service idx nd svc name port s : P s -> outcome P id (ensure_service idx nd svc name port s).
+Proof.
+  intros Hs. unfold ensure_service. destruct (nodes s !! nd); [|exact Hs].
+  destruct (services s !! (nd, svc)); [destruct (_ && _)|]; cbn; [exact Hs|apply cf_services, Hs|apply cf_services, Hs].
+Qed.
+End catfree.
+
+(* ---------- the session-link and index-row parts ---------- *)
+Definition Q (s : st) : Prop := SCheckExact s /\ IdxPresence s.
+
+Lemma ne_sub {K} `{Countable K} {V} (m' m : gmap K V) : m' ⊆ m -> m' <> ∅ -> m <> ∅.
+Proof.
+  intros Hsub Hne ->. apply Hne. apply map_empty. intros k. apply eq_None_not_Some. intros [v Hv].
+  eapply lookup_weaken in Hv; [|exact Hsub]. rewrite lookup_empty in Hv. discriminate.
+Qed.
+
+Lemma IdxPresence_step s p :
+  dom (index s) ⊆ dom (index p) ->
+  (kvs p <> ∅ -> kvs s <> ∅ \/ is_Some (index p !! "kvs")) ->
+  (tombs p <> ∅ -> tombs s <> ∅ \/ is_Some (index p !! "tombstones")) ->
+  (sessions p <> ∅ -> sessions s <> ∅ \/ is_Some (index p !! "sessions")) ->
+  (queries p <> ∅ -> queries s <> ∅ \/ is_Some (index p !! "prepared-queries")) ->
+  IdxPresence s -> IdxPresence p.
+Proof.
+  intros Hd Hk Ht Hs Hq (A & B & C & D).
+  assert (Hup : forall k, is_Some (index s !! k) -> is_Some (index p !! k)).
+  { intros k Hk'. apply elem_of_dom. apply Hd. apply elem_of_dom. exact Hk'. }
+  repeat split.
+  - intros H. destruct (Hk H) as [H'|H']; [apply Hup, A, H'|exact H'].
+  - intros H. destruct (Ht H) as [H'|H']; [apply Hup, B, H'|exact H'].
+  - intros H. destruct (Hs H) as [H'|H']; [apply Hup, C, H'|exact H'].
+  - intros H. destruct (Hq H) as [H'|H']; [apply Hup, D, H'|exact H'].
+Qed.
+
+Lemma Q_frame s p :
+  sessions p = sessions s -> schecks p = schecks s -> kvs p = kvs s -> tombs p = tombs s ->
+  queries p = queries s -> index p = index s -> Q s -> Q p.
+Proof.
+  intros A B C D E F [H1 H2]. split.
+  - unfold SCheckExact. rewrite A, B. exact H1.
+  - unfold IdxPresence. rewrite A, C, D, E, F. exact H2.
+Qed.
+
+Lemma Q_cf_checks s f : Q s -> Q (s <| checks ::= f |>).
+Proof. apply Q_frame; reflexivity. Qed.
+Lemma Q_cf_nodes s f : Q s -> Q (s <| nodes ::= f |>).
+Proof. apply Q_frame; reflexivity. Qed.
+Lemma Q_cf_services s f : Q s -> Q (s <| services ::= f |>).
+Proof. apply Q_frame; reflexivity. Qed.
+
+Lemma dom_set_index k v s : dom (index s) ⊆ dom (index (set_index k v s)).
+Proof. unfold set_index. cbn. rewrite dom_insert. set_solver. Qed.
+
+Lemma set_index_has k v s : is_Some (index (set_index k v s) !! k).
+Proof. unfold set_index. cbn. rewrite lookup_insert. eauto. Qed.
+
+Lemma drop_session_schecks_eq idx sid ss s :
+  schecks (drop_session idx sid ss s) = filter (fun m => m.2 <> sid) (schecks s).
+Proof.
+  unfold drop_session. cbn zeta.
+  match goal with |- context [bool_decide ?P] => destruct (bool_decide P) end; cbn;
+    rewrite (proj1 (proj2 (release_or_delete_keys_frame _ _ _ _))); reflexivity.
+Qed.
+
+(* the four tables and the index after the keys step *)
+Definition keys_ok (s p : st) : Prop :=
+  dom (index s) ⊆ dom (index p) /\
+  (kvs p <> ∅ -> kvs s <> ∅) /\ (kvs p = kvs s \/ is_Some (index p !! "kvs")) /\
+  (tombs p = tombs s \/ is_Some (index p !! "tombstones")).
+
+Lemma release_or_delete_keys_idx idx sid ss s : keys_ok s (release_or_delete_keys idx sid ss s).
+Proof.
+  unfold release_or_delete_keys.
+  destruct (bool_decide _); [split; [reflexivity|split; [tauto|split; left; reflexivity]]|].
+  set (held := filter (fun kv : string * kvent => kv_session kv.2 = sid) (kvs s)).
+  assert (Hdel : keys_ok s (set_index "kvs" idx
+           (set_index "tombstones" idx
+              (s <| tombs ::= fun t => ((fun _ => idx) <$> held) ∪ t |>
+                 <| kvs ::= filter (fun kv => kv_session kv.2 <> sid) |>)))).
+  { unfold keys_ok, set_index. cbn. split; [rewrite !dom_insert; set_solver|].
+    split; [intros Hne; eapply ne_sub; [|exact Hne]; apply map_filter_subseteq|].
+    split; right; [rewrite lookup_insert; eauto|].
+    rewrite lookup_insert_ne by discriminate. rewrite lookup_insert. eauto. }
+  assert (Hrel : keys_ok s (set_index "kvs" idx
+           (s <| kvs ::= fmap (fun e => if bool_decide (kv_session e = sid)
+                                        then KV (kv_value e) (kv_flags e) "" (kv_lock e) (kv_create e) idx
+                                        else e) |>))).
+  { unfold keys_ok, set_index. cbn. split; [rewrite !dom_insert; set_solver|].
+    split; [intros Hne Heq; apply Hne; rewrite Heq; apply fmap_empty|].
+    split; [right; rewrite lookup_insert; eauto|left; reflexivity]. }
+  destruct (s_delete ss); destruct (s_delay ss); assumption.
+Qed.
+
+Lemma Q_drop_ok : drop_ok Q.
+Proof.
+  intros s idx sid ss [Hex Hip] Hss. split.
+  - (* links *)
+    intros n c sd. rewrite drop_session_schecks_eq, drop_session_sessions. split.
+    + intros Hin. apply elem_of_filter in Hin as [Hne Hin]. cbn in Hne.
+      apply Hex in Hin as (ss' & H1 & H2 & H3). exists ss'. split; [|split; assumption].
+      rewrite lookup_delete_ne by congruence. exact H1.
+    + intros (ss' & H1 & H2 & H3). apply lookup_delete_Some in H1 as [Hne H1].
+      apply elem_of_filter. split; [cbn; congruence|]. apply Hex. exists ss'. split; [exact H1|split; assumption].
+  - (* index rows *)
+    unfold drop_session. cbn zeta.
+    set (s0 := s <| sessions ::= delete sid |>).
+    set (s1 := set_index "sessions" idx s0).
+    assert (E0 : index s0 = index s) by reflexivity.
+    pose proof (release_or_delete_keys_idx idx sid ss s1) as (Kd & Kne & Kk & Kt).
+    pose proof (release_or_delete_keys_frame idx sid ss s1) as (Fs & _ & Fq & _).
+    set (s2 := release_or_delete_keys idx sid ss s1) in *.
+    assert (H2 : IdxPresence s2).
+    { eapply (IdxPresence_step s s2); [| | | | |exact Hip].
+      - etrans; [|exact Kd]. rewrite <- E0. exact (dom_set_index "sessions" idx s0).
+      - intros Hne. destruct Kk as [Kk|Kk]; [left; rewrite Kk in Hne; exact Hne|right; exact Kk].
+      - intros Hne. destruct Kt as [Kt|Kt]; [left; rewrite Kt in Hne; exact Hne|right; exact Kt].
+      - intros _. right. apply elem_of_dom. apply Kd. apply elem_of_dom.
+        exact (set_index_has "sessions" idx s0).
+      - intros Hne. left. rewrite Fq in Hne. exact Hne. }
+    match goal with |- context [bool_decide ?P] => destruct (bool_decide P) end.
+    + eapply (IdxPresence_step s2); [reflexivity|intros H; left; exact H|intros H; left; exact H|intros H; left; exact H|intros H; left; exact H|exact H2].
+    + eapply (IdxPresence_step s2); [| | | | |exact H2]; cbn.
+      * rewrite dom_insert. set_solver.
+      * intros H; left; exact H.
+      * intros H; left; exact H.
+      * intros H; left; exact H.
+      * intros _. right. rewrite lookup_insert. eauto.
+Qed.
+
+(* ---------- KV primitives ---------- *)
+Lemma Q_kv s p :
+  sessions p = sessions s -> schecks p = schecks s -> queries p = queries s ->
+  dom (index s) ⊆ dom (index p) ->
+  (kvs p <> ∅ -> kvs s <> ∅ \/ is_Some (index p !! "kvs")) ->
+  (tombs p <> ∅ -> tombs s <> ∅ \/ is_Some (index p !! "tombstones")) ->
+  Q s -> Q p.
+Proof.
+  intros A B C D E F [H1 H2]. split.
+  - unfold SCheckExact. rewrite A, B. exact H1.
+  - eapply (IdxPresence_step s p); [exact D|exact E|exact F| | |exact H2].
+    + intros H. left. rewrite A in H. exact H.
+    + intros H. left. rewrite C in H. exact H.
+Qed.
+
+Lemma kvs_set_Q idx k e upd s : Q s -> Q (kvs_set idx k e upd s).1.
+Proof.
+  intros HQ. unfold kvs_set.
+  destruct (kvs s !! k) as [x|]; [destruct (kv_same x _); cbn; [exact HQ|]|cbn];
+    (eapply (Q_kv s); [reflexivity|reflexivity|reflexivity| | | |exact HQ]; cbn;
+     [rewrite dom_insert; set_solver|intros _; right; rewrite lookup_insert; eauto|intros H; left; exact H]).
+Qed.
+
+Lemma kvs_delete_Q idx k s : Q s -> Q (kvs_delete idx k s).
+Proof.
+  intros HQ. unfold kvs_delete. destruct (kvs s !! k); [|exact HQ].
+  eapply (Q_kv s); [reflexivity|reflexivity|reflexivity| | | |exact HQ]; cbn.
+  - rewrite !dom_insert. set_solver.
+  - intros _. right. rewrite lookup_insert. eauto.
+  - intros _. right. rewrite lookup_insert_ne by discriminate. rewrite lookup_insert. eauto.
+Qed.
+
+Lemma kvs_delete_tree_Q idx p s : Q s -> Q (kvs_delete_tree idx p s).
+Proof.
+  intros HQ. unfold kvs_delete_tree. destruct (bool_decide _); [exact HQ|].
+  destruct (bool_decide (p = "")); (eapply (Q_kv s); [reflexivity|reflexivity|reflexivity| | | |exact HQ]; cbn).
+  - rewrite !dom_insert. set_solver.
+  - intros _. right. rewrite lookup_insert. eauto.
+  - intros H. left. exact H.
+  - rewrite !dom_insert. set_solver.
+  - intros _. right. rewrite lookup_insert. eauto.
+  - intros _. right. rewrite lookup_insert_ne by discriminate. rewrite lookup_insert. eauto.
+Qed.
+
+Lemma kvs_delete_cas_Q idx cidx k s : Q s -> Q (kvs_delete_cas idx cidx k s).2.
+Proof.
+  intros HQ. unfold kvs_delete_cas. destruct (kvs s !! k); [|exact HQ].
+  destruct (bool_decide _); cbn; [apply kvs_delete_Q; exact HQ|exact HQ].
+Qed.
+
+Lemma kvs_set_cas_Q idx k e s : Q s -> Q (kvs_set_cas idx k e s).2.1.
+Proof.
+  intros HQ. unfold kvs_set_cas. destruct (kvs s !! k).
+  - destruct (bool_decide (kv_modify e = 0)); cbn; [exact HQ|].
+    destruct (bool_decide _); cbn; [apply kvs_set_Q; exact HQ|exact HQ].
+  - destruct (bool_decide _); cbn; [apply kvs_set_Q; exact HQ|exact HQ].
+Qed.
+
+Lemma kvs_lock_Q idx k e s : Q s -> outcome Q (fun r => r.2.1) (kvs_lock idx k e s).
+Proof.
+  intros HQ. unfold kvs_lock. destruct (bool_decide (kv_session e = "")); [exact HQ|].
+  destruct (sessions s !! kv_session e); [|exact HQ].
+  destruct (kvs s !! k) as [x|].
+  - destruct (bool_decide (kv_session x = kv_session e)); cbn; [apply kvs_set_Q; exact HQ|].
+    destruct (bool_decide (kv_session x = "")); cbn; [apply kvs_set_Q; exact HQ|exact HQ].
+  - cbn. apply kvs_set_Q; exact HQ.
+Qed.
+
+Lemma kvs_unlock_Q idx k e s : Q s -> outcome Q (fun r => r.2.1) (kvs_unlock idx k e s).
+Proof.
+  intros HQ. unfold kvs_unlock. destruct (bool_decide (kv_session e = "")); [exact HQ|].
+  destruct (kvs s !! k) as [x|]; [|exact HQ].
+  destruct (bool_decide _); cbn; [apply kvs_set_Q; exact HQ|exact HQ].
+Qed.
+
+Lemma reap_Q upto s : Q s -> Q (reap_tombstones upto s).
+Proof.
+  intros HQ. unfold reap_tombstones.
+  eapply (Q_kv s); [reflexivity|reflexivity|reflexivity|reflexivity| | |exact HQ]; cbn.
+  - intros H. left. exact H.
+  - intros H. left. eapply ne_sub; [|exact H]. apply map_filter_subseteq.
+Qed.
+
+(* ---------- sessions and queries ---------- *)
+Lemma session_create_Q idx sid ss s :
+  sessions s !! sid = None -> Q s -> outcome Q id (session_create idx sid ss s).
+Proof.
+  intros Hfresh HQ. unfold session_create. destruct (bool_decide (sid = "")); [exact HQ|].
+  destruct (nodes s !! s_node ss); [|exact HQ]. destruct (forallb _ _); [|exact HQ].
+  apply rfold_outcome.
+  - intros cid t Ht. match goal with |- context [checks ?s1 !! ?k] => destruct (checks s1 !! k) end; [|exact Ht].
+    apply (cf_ensure_check_p Q Q_cf_checks Q_drop_ok). exact Ht.
+  - destruct HQ as [Hex Hip]. split.
+    + intros n0 c sd. cbn. rewrite elem_of_union, elem_of_list_to_set, elem_of_list_fmap. split.
+      * intros [(cid & Heq & Hin)|Hin].
+        -- injection Heq as -> -> ->. exists (ss <| s_create := idx |>). rewrite lookup_insert. repeat split. exact Hin.
+        -- apply Hex in Hin as (ss' & H1 & H2 & H3). exists ss'. split; [|split; assumption].
+           rewrite lookup_insert_ne by (intros ->; congruence). exact H1.
+      * intros (ss' & H1 & H2 & H3). destruct (decide (sd = sid)) as [->|Hne].
+        -- rewrite lookup_insert in H1. injection H1 as <-. cbn in *. left. exists c. subst. split; [reflexivity|exact H3].
+        -- rewrite lookup_insert_ne in H1 by congruence. right. apply Hex. exists ss'. split; [exact H1|split; assumption].
+    + eapply (IdxPresence_step s); [| | | | |exact Hip]; cbn.
+      * rewrite dom_insert. set_solver.
+      * intros H; left; exact H.
+      * intros H; left; exact H.
+      * intros _. right. rewrite lookup_insert. eauto.
+      * intros H; left; exact H.
+Qed.
+
+Lemma query_set_Q idx qid sess s : Q s -> outcome Q id (query_set idx qid sess s).
+Proof.
+  intros HQ. unfold query_set. destruct (_ || _); [|exact HQ]. cbn. destruct HQ as [Hex Hip]. split; [exact Hex|].
+  eapply (IdxPresence_step s); [| | | | |exact Hip]; cbn.
+  - rewrite dom_insert. set_solver.
+  - intros H; left; exact H.
+  - intros H; left; exact H.
+  - intros H; left; exact H.
+  - intros _. right. rewrite lookup_insert. eauto.
+Qed.
+
+Lemma query_delete_Q idx qid s : Q s -> Q (query_delete idx qid s).
+Proof.
+  intros HQ. unfold query_delete. destruct (queries s !! qid); [|exact HQ]. destruct HQ as [Hex Hip]. split; [exact Hex|].
+  eapply (IdxPresence_step s); [| | | | |exact Hip]; cbn.
+  - rewrite dom_insert. set_solver.
+  - intros H; left; exact H.
+  - intros H; left; exact H.
+  - intros H; left; exact H.
+  - intros _. right. rewrite lookup_insert. eauto.
+Qed.
+
+(* ================================================================ Part 4: commands and histories *)
+Section compose.
+Context (P : st -> Prop).
+Hypothesis bb_node : forall idx nd nid addr s, idx <> 0 -> P s -> outcome P id (ensure_node idx nd nid addr s).
+Hypothesis bb_service : forall idx nd svc name port s, P s -> outcome P id (ensure_service idx nd svc name port s).
+Hypothesis bb_check : forall pre idx nd cid hc s, P s -> outcome P id (ensure_check_p pre idx nd cid hc s).
+Hypothesis bb_del_node : forall idx nd s, P s -> outcome P id (delete_node idx nd s).
+Hypothesis bb_del_service : forall idx nd svc s, P s -> outcome P id (delete_service idx nd svc s).
+Hypothesis bb_del_check : forall idx nd cid s, P s -> outcome P id (delete_check idx nd cid s).
+Hypothesis bb_del_session : forall idx sid s, P s -> outcome P id (delete_session_top idx sid s).
+Hypothesis bb_kvs_set : forall idx k e upd s, P s -> P (kvs_set idx k e upd s).1.
+Hypothesis bb_kvs_delete : forall idx k s, P s -> P (kvs_delete idx k s).
+Hypothesis bb_kvs_delete_tree : forall idx p s, P s -> P (kvs_delete_tree idx p s).
+Hypothesis bb_kvs_delete_cas : forall idx cidx k s, P s -> P (kvs_delete_cas idx cidx k s).2.
+Hypothesis bb_kvs_set_cas : forall idx k e s, P s -> P (kvs_set_cas idx k e s).2.1.
+Hypothesis bb_kvs_lock : forall idx k e s, P s -> outcome P (fun r => r.2.1) (kvs_lock idx k e s).
+Hypothesis bb_kvs_unlock : forall idx k e s, P s -> outcome P (fun r => r.2.1) (kvs_unlock idx k e s).
+Hypothesis bb_reap : forall upto s, P s -> P (reap_tombstones upto s).
+Hypothesis bb_session_create : forall idx sid ss s, sessions s !! sid = None -> P s -> outcome P id (session_create idx sid ss s).
+Hypothesis bb_query_set : forall idx qid sess s, P s -> outcome P id (query_set idx qid sess s).
+Hypothesis bb_query_delete : forall idx qid s, P s -> P (query_delete idx qid s).
+
+Lemma c_registration idx nd nid addr skip svc cks s :
+  idx <> 0 -> P s -> outcome P id (ensure_registration idx nd nid addr skip svc cks s).
+Proof.
+  intros Hidx Hs. unfold ensure_registration.
+  apply (bind_outcome P P id id).
+  { destruct (changes_node _ _ _ _); [|exact Hs]. apply bb_node; assumption. }
+  intros s1 Hs1. apply (bind_outcome P P id id).
+  { destruct svc as [[[sid name] port]|]; [|exact Hs1].
+    destruct (services s1 !! (nd, sid)) as [x|]; [destruct (_ && _); [exact Hs1|]|]; apply bb_service; exact Hs1. }
+  intros s2 Hs2. apply rfold_outcome; [|exact Hs2].
+  intros c t Ht. destruct (bool_decide _); [|exact Ht]. apply bb_check. exact Ht.
+Qed.
+
+Lemma bind_fst {B} (m : result st) (k : st -> result (st * B)) :
+  outcome P id m -> (forall s', P s' -> outcome P fst (k s')) -> outcome P fst (m ≫= k).
+Proof. intros Hm Hk. destruct m as [a|e p]; cbn in *; [apply Hk; exact Hm|exact Hm]. Qed.
+
+Lemma c_txn_kv idx v q s : P s -> outcome P fst (txn_kv idx v q s).
+Proof.
+  intros Hs. unfold txn_kv. destruct v; cbn.
+  - pose proof (bb_kvs_set idx (q_key q) (ent_of q) false s Hs) as Hx.
+    destruct (kvs_set _ _ _ _ _) as [s' e']. exact Hx.
+  - apply bb_kvs_delete; exact Hs.
+  - pose proof (bb_kvs_delete_cas idx (q_index q) (q_key q) s Hs) as Hx.
+    destruct (kvs_delete_cas _ _ _ _) as [[] s']; cbn; [exact Hx|exact Hs].
+  - apply bb_kvs_delete_tree; exact Hs.
+  - pose proof (bb_kvs_set_cas idx (q_key q) (ent_of q) s Hs) as Hx.
+    destruct (kvs_set_cas _ _ _ _) as [[] [s' e']]; cbn; [exact Hx|exact Hs].
+  - pose proof (bb_kvs_lock idx (q_key q) (ent_of q) s Hs) as Hx.
+    destruct (kvs_lock _ _ _ _) as [[[] [s' e']]|er p]; cbn; [exact Hx|exact Hs|exact Hx].
+  - pose proof (bb_kvs_unlock idx (q_key q) (ent_of q) s Hs) as Hx.
+    destruct (kvs_unlock _ _ _ _) as [[[] [s' e']]|er p]; cbn; [exact Hx|exact Hs|exact Hx].
+  - destruct (kvs s !! q_key q); exact Hs.
+  - destruct (kvs s !! q_key q); exact Hs.
+  - exact Hs.
+  - destruct (kvs s !! q_key q); [destruct (bool_decide _)|]; exact Hs.
+  - destruct (kvs s !! q_key q); [destruct (bool_decide _)|]; exact Hs.
+  - destruct (kvs s !! q_key q); exact Hs.
+Qed.
+
+Lemma c_txn_node idx v nd nid addr cidx s : idx <> 0 -> P s -> outcome P fst (txn_node idx v nd nid addr cidx s).
+Proof.
+  intros Hidx Hs. unfold txn_node.
+  assert (Hreply : forall s', P s' ->
+     outcome P fst
+       (match (if bool_decide (nid = "") then (fun n => (nd, n)) <$> nodes s' !! nd else node_by_id nid s') with
+        | Some (nm, n) => Ok (s', [RNode nm n]) | None => Ok (s', []) end)).
+  { intros s' Hs'. destruct (if bool_decide (nid = "") then _ else _) as [[nm n]|]; exact Hs'. }
+  destruct v.
+  - destruct (if bool_decide (nid = "") then _ else _) as [[nm n]|]; exact Hs.
+  - apply bind_fst; [apply bb_node; assumption|exact Hreply].
+  - destruct (cas_ok _ _ _); [|exact Hs]. apply bind_fst; [apply bb_node; assumption|exact Hreply].
+  - apply bind_fst; [apply bb_del_node; exact Hs|intros s' Hs'; exact Hs'].
+  - destruct (nodes s !! nd) as [x|]; [|exact Hs]. destruct (bool_decide (n_modify x = cidx)); [|exact Hs].
+    apply bind_fst; [apply bb_del_node; exact Hs|intros s' Hs'; exact Hs'].
+Qed.
+
+Lemma c_txn_service idx v nd svc name port cidx s : P s -> outcome P fst (txn_service idx v nd svc name port cidx s).
+Proof.
+  intros Hs. unfold txn_service.
+  assert (Hreply : forall s', P s' ->
+     outcome P fst (match services s' !! (nd, svc) with
+                    | Some x => Ok (s', [RService nd svc x]) | None => Ok (s', []) end)).
+  { intros s' Hs'. destruct (services s' !! (nd, svc)); exact Hs'. }
+  destruct v.
+  - destruct (services s !! (nd, svc)); exact Hs.
+  - apply bind_fst; [apply bb_service; exact Hs|exact Hreply].
+  - destruct (cas_ok _ _ _); [|exact Hs]. apply bind_fst; [apply bb_service; exact Hs|exact Hreply].
+  - apply bind_fst; [apply bb_del_service; exact Hs|intros s' Hs'; exact Hs'].
+  - destruct (services s !! (nd, svc)) as [x|]; [|exact Hs]. destruct (bool_decide (sv_modify x = cidx)); [|exact Hs].
+    apply bind_fst; [apply bb_del_service; exact Hs|intros s' Hs'; exact Hs'].
+Qed.
+
+Lemma c_txn_check idx v c s : P s -> outcome P fst (txn_check idx v c s).
+Proof.
+  intros Hs. unfold txn_check.
+  assert (Hreply : forall s', P s' ->
+     outcome P fst (match checks s' !! (cr_node c, cr_id c) with
+                    | Some x => Ok (s', [RCheck (cr_node c) (cr_id c) x]) | None => Ok (s', []) end)).
+  { intros s' Hs'. destruct (checks s' !! _); exact Hs'. }
+  destruct v.
+  - destruct (checks s !! _); exact Hs.
+  - apply bind_fst; [apply bb_check; exact Hs|exact Hreply].
+  - destruct (cas_ok _ _ _); [|exact Hs]. apply bind_fst; [apply bb_check; exact Hs|exact Hreply].
+  - apply bind_fst; [apply bb_del_check; exact Hs|intros s' Hs'; exact Hs'].
+  - destruct (checks s !! _) as [x|]; [|exact Hs]. destruct (bool_decide (c_modify x = cr_index c)); [|exact Hs].
+    apply bind_fst; [apply bb_del_check; exact Hs|intros s' Hs'; exact Hs'].
+Qed.
+
+Lemma c_txn_op idx op s : idx <> 0 -> P s -> outcome P fst (txn_op idx op s).
+Proof.
+  intros Hidx Hs. destruct op; cbn [txn_op].
+  - apply c_txn_kv; exact Hs.
+  - apply c_txn_node; assumption.
+  - apply c_txn_service; exact Hs.
+  - apply c_txn_check; exact Hs.
+  - destruct (sessions s !! sid); [|exact Hs].
+    apply bind_fst; [apply bb_del_session; exact Hs|intros s' Hs'; exact Hs'].
+Qed.
+
+Lemma c_txn_dispatch idx ops : idx <> 0 -> forall i s, P s -> P (txn_dispatch idx i ops s).1.1.
+Proof.
+  intros Hidx. induction ops as [|op ops IH]; intros i s Hs; cbn; [exact Hs|].
+  pose proof (c_txn_op idx op s Hidx Hs) as Hop.
+  destruct (txn_op idx op s) as [[s' r]|e sp]; cbn in Hop.
+  - specialize (IH (S i) s' Hop). destruct (txn_dispatch idx (S i) ops s') as [[s'' rs] es]. exact IH.
+  - specialize (IH (S i) sp Hop). destruct (txn_dispatch idx (S i) ops sp) as [[s'' rs] es]. exact IH.
+Qed.
+
+Lemma c_of_unit (r : result st) s : P s -> outcome P id r -> P (of_unit r s).1.
+Proof. intros Hs Hr. destruct r as [s'|e p]; cbn; [exact Hr|exact Hs]. Qed.
+
+Theorem c_apply idx c s : wf_cmd idx c s -> P s -> P (apply idx c s).1.
+Proof.
+  intros [Hpos Hwf] Hs. assert (Hidx : idx <> 0) by lia. destruct c; cbn.
+  - unfold apply_kvs. destruct v; cbn; try exact Hs.
+    + apply bb_kvs_set; exact Hs.
+    + apply bb_kvs_delete; exact Hs.
+    + pose proof (bb_kvs_delete_cas idx (q_index q) (q_key q) s Hs) as Hx.
+      destruct (kvs_delete_cas _ _ _ _) as [ok s']. exact Hx.
+    + apply bb_kvs_delete_tree; exact Hs.
+    + pose proof (bb_kvs_set_cas idx (q_key q) (ent_of q) s Hs) as Hx.
+      destruct (kvs_set_cas _ _ _ _) as [[] [s' e']]; cbn; [exact Hx|exact Hs].
+    + pose proof (bb_kvs_lock idx (q_key q) (ent_of q) s Hs) as Hx.
+      destruct (kvs_lock _ _ _ _) as [[[] [s' e']]|er p]; cbn; [exact Hx|exact Hs|exact Hs].
+    + pose proof (bb_kvs_unlock idx (q_key q) (ent_of q) s Hs) as Hx.
+      destruct (kvs_unlock _ _ _ _) as [[[] [s' e']]|er p]; cbn; [exact Hx|exact Hs|exact Hs].
+  - pose proof (bb_session_create idx sid ss s Hwf Hs) as Hx.
+    destruct (session_create idx sid ss s); cbn; [exact Hx|exact Hs].
+  - apply c_of_unit; [exact Hs|]. apply bb_del_session; exact Hs.
+  - apply c_of_unit; [exact Hs|]. apply c_registration; assumption.
+  - destruct (negb (bool_decide (svc = ""))); [|destruct (negb (bool_decide (cid = "")))];
+      (apply c_of_unit; [exact Hs|]).
+    + apply bb_del_service; exact Hs.
+    + apply bb_del_check; exact Hs.
+    + apply bb_del_node; exact Hs.
+  - unfold txn_rw. pose proof (c_txn_dispatch idx ops Hidx 0%nat s Hs) as Hx.
+    destruct (txn_dispatch idx 0 ops s) as [[s' rs] es]. destruct es; cbn; [exact Hx|exact Hs].
+  - apply bb_reap; exact Hs.
+  - apply c_of_unit; [exact Hs|]. apply bb_query_set; exact Hs.
+  - apply bb_query_delete; exact Hs.
+Qed.
+
+Theorem c_run log : forall s, wf_log log s -> P s -> P (run log s).1.
+Proof.
+  induction log as [|[idx c] log IH]; intros s Hwf Hs; cbn; [exact Hs|].
+  destruct Hwf as [Hc Hrest]. pose proof (c_apply idx c s Hc Hs) as Ha.
+  destruct (apply idx c s) as [s' r]. cbn in *. specialize (IH s' Hrest Ha).
+  destruct (run log s') as [s'' rs]. exact IH.
+Qed.
+End compose.
+
+(* ---------- the catalog part is untouched by the KV / query primitives ---------- *)
+Lemma cat_same_refl s : cat_same s s.
+Proof. repeat split. Qed.
+
+Lemma kvs_set_cat idx k e upd s : cat_same s (kvs_set idx k e upd s).1.
+Proof. unfold kvs_set. destruct (kvs s !! k) as [x|]; [destruct (kv_same x _)|]; repeat split. Qed.
+Lemma kvs_delete_cat idx k s : cat_same s (kvs_delete idx k s).
+Proof. unfold kvs_delete. destruct (kvs s !! k); repeat split. Qed.
+Lemma kvs_delete_tree_cat idx p s : cat_same s (kvs_delete_tree idx p s).
+Proof. unfold kvs_delete_tree. destruct (bool_decide _); [repeat split|]. destruct (bool_decide (p = "")); repeat split. Qed.
+Lemma kvs_delete_cas_cat idx cidx k s : cat_same s (kvs_delete_cas idx cidx k s).2.
+Proof.
+  unfold kvs_delete_cas. destruct (kvs s !! k); [|repeat split].
+  destruct (bool_decide _); cbn; [apply kvs_delete_cat|repeat split].
+Qed.
+Lemma kvs_set_cas_cat idx k e s : cat_same s (kvs_set_cas idx k e s).2.1.
+Proof.
+  unfold kvs_set_cas. destruct (kvs s !! k).
+  - destruct (bool_decide (kv_modify e = 0)); cbn; [repeat split|].
+    destruct (bool_decide _); cbn; [apply kvs_set_cat|repeat split].
+  - destruct (bool_decide _); cbn; [apply kvs_set_cat|repeat split].
+Qed.
+Lemma kvs_lock_cat idx k e s : outcome (cat_same s) (fun r => r.2.1) (kvs_lock idx k e s).
+Proof.
+  unfold kvs_lock. destruct (bool_decide (kv_session e = "")); [apply cat_same_refl|].
+  destruct (sessions s !! kv_session e); [|apply cat_same_refl].
+  destruct (kvs s !! k) as [x|].
+  - destruct (bool_decide (kv_session x = kv_session e)); cbn; [apply kvs_set_cat|].
+    destruct (bool_decide (kv_session x = "")); cbn; [apply kvs_set_cat|apply cat_same_refl].
+  - cbn. apply kvs_set_cat.
+Qed.
+Lemma kvs_unlock_cat idx k e s : outcome (cat_same s) (fun r => r.2.1) (kvs_unlock idx k e s).
+Proof.
+  unfold kvs_unlock. destruct (bool_decide (kv_session e = "")); [apply cat_same_refl|].
+  destruct (kvs s !! k) as [x|]; [|apply cat_same_refl].
+  destruct (bool_decide _); cbn; [apply kvs_set_cat|apply cat_same_refl].
+Qed.
+
+Lemma outcome_impl {A} (P1 P2 : st -> Prop) (proj : A -> st) r :
+  (forall s, P1 s -> P2 s) -> outcome P1 proj r -> outcome P2 proj r.
+Proof. intros H. destruct r; cbn; apply H. Qed.
+
+Theorem apply_Cat idx c s : wf_cmd idx c s -> Cat s -> Cat (apply idx c s).1.
+Proof.
+  apply (c_apply Cat).
+  - intros; apply ensure_node_Cat; assumption.
+  - intros; apply ensure_service_Cat; assumption.
+  - intros; apply ensure_check_p_Cat; assumption.
+  - intros; apply delete_node_Cat'; assumption.
+  - intros; apply delete_service_Cat'; assumption.
+  - intros; apply delete_check_Cat; assumption.
+  - intros; apply delete_session_top_Cat; assumption.
+  - intros i k e upd t Ht. eapply cat_same_Cat; [apply kvs_set_cat|exact Ht].
+  - intros i k t Ht. eapply cat_same_Cat; [apply kvs_delete_cat|exact Ht].
+  - intros i p t Ht. eapply cat_same_Cat; [apply kvs_delete_tree_cat|exact Ht].
+  - intros i ci k t Ht. eapply cat_same_Cat; [apply kvs_delete_cas_cat|exact Ht].
+  - intros i k e t Ht. eapply cat_same_Cat; [apply kvs_set_cas_cat|exact Ht].
+  - intros i k e t Ht. eapply outcome_impl; [|apply kvs_lock_cat]. intros p Hp. eapply cat_same_Cat; eassumption.
+  - intros i k e t Ht. eapply outcome_impl; [|apply kvs_unlock_cat]. intros p Hp. eapply cat_same_Cat; eassumption.
+  - intros u t Ht. eapply cat_same_Cat; [|exact Ht]. repeat split.
+  - intros i sid ss t _ Ht. apply session_create_Cat; exact Ht.
+  - intros i q se t Ht. unfold query_set. destruct (_ || _); cbn; [|exact Ht]. eapply cat_same_Cat; [|exact Ht]. repeat split.
+  - intros i q t Ht. unfold query_delete. destruct (queries t !! q); [|exact Ht]. eapply cat_same_Cat; [|exact Ht]. repeat split.
+Qed.
+
+Theorem apply_Q idx c s : wf_cmd idx c s -> Q s -> Q (apply idx c s).1.
+Proof.
+  apply (c_apply Q).
+  - intros; apply (cf_ensure_node Q Q_cf_checks Q_cf_nodes Q_cf_services Q_drop_ok); assumption.
+  - intros; apply (cf_ensure_service Q Q_cf_services); assumption.
+  - intros; apply (cf_ensure_check_p Q Q_cf_checks Q_drop_ok); assumption.
+  - intros; apply (cf_delete_node Q Q_cf_checks Q_cf_nodes Q_cf_services Q_drop_ok); assumption.
+  - intros; apply (cf_delete_service Q Q_cf_checks Q_cf_services Q_drop_ok); assumption.
+  - intros; apply (cf_delete_check Q Q_cf_checks Q_drop_ok); assumption.
+  - intros; apply (cf_delete_session_top Q Q_cf_checks Q_drop_ok); assumption.
+  - intros; apply kvs_set_Q; assumption.
+  - intros; apply kvs_delete_Q; assumption.
+  - intros; apply kvs_delete_tree_Q; assumption.
+  - intros; apply kvs_delete_cas_Q; assumption.
+  - intros; apply kvs_set_cas_Q; assumption.
+  - intros; apply kvs_lock_Q; assumption.
+  - intros; apply kvs_unlock_Q; assumption.
+  - intros; apply reap_Q; assumption.
+  - intros; apply session_create_Q; assumption.
+  - intros; apply query_set_Q; assumption.
+  - intros; apply query_delete_Q; assumption.
+Qed.
+
+Lemma Inv_iff s : Inv s <-> Cat s /\ Q s.
+Proof. unfold Inv, Q. rewrite Cat_iff. tauto. Qed.
+
+Theorem apply_Inv idx c s : wf_cmd idx c s -> Inv s -> Inv (apply idx c s).1.
+Proof.
+  intros Hwf HI. apply Inv_iff in HI as [HC HQ]. apply Inv_iff.
+  split; [apply apply_Cat|apply apply_Q]; assumption.
+Qed.
+
+Theorem run_Inv log : forall s, wf_log log s -> Inv s -> Inv (run log s).1.
+Proof.
+  induction log as [|[idx c] log IH]; intros s Hwf Hs; cbn; [exact Hs|].
+  destruct Hwf as [Hc Hrest]. pose proof (apply_Inv idx c s Hc Hs) as Ha.
+  destruct (apply idx c s) as [s' r]. cbn in *. specialize (IH s' Hrest Ha).
+  destruct (run log s') as [s'' rs]. exact IH.
+Qed.
+
+Lemma Inv_st0 : Inv st0.
+Proof.
+  unfold Inv. split; [|split; [|split; [|split; [|split]]]].
+  - intros n1 n2 a b H. cbn in H. rewrite lookup_empty in H. discriminate.
+  - intros n a H. cbn in H. rewrite lookup_empty in H. discriminate.
+  - intros nd sid sv H. cbn in H. rewrite lookup_empty in H. discriminate.
+  - intros nd cid c H. cbn in H. rewrite lookup_empty in H. discriminate.
+  - intros n c sid. split; [intros H; set_solver|intros (ss & H & _); cbn in H; rewrite lookup_empty in H; discriminate].
+  - unfold IdxPresence. repeat split; intros H; contradiction.
+Qed.
+
+Theorem reachable_Inv s : reachable s -> Inv s.
+Proof. intros (log & Hwf & ->). apply run_Inv; [exact Hwf|apply Inv_st0]. Qed.
